@@ -30,7 +30,7 @@ Definition model (i : input) : observed :=
            | Some v => victim_reg v
            | None => if names_nobody (i_pres i) then nobody_reg else i_reg i
            end)
-          (eff_pres (i_pres i)) (i_pl i) (i_grant i) (own_artefact (i_pres i)) with
+          (eff_pres (i_cfg i) (i_pres i)) (i_pl i) (i_grant i) (own_artefact (i_pres i)) with
   | Granted => ORes S2 ENone (issues_token (i_endpoint i)) (has_effect (i_endpoint i))
                     (match other with Some _ => WOther | None => WSelf end)
   | Refused s e => ORes s e false false WNone
@@ -46,7 +46,11 @@ Definition presents_right_secret (p : pres) : bool :=
   | _ => false
   end.
 Definition presents_ok_assertion (p : pres) : bool :=
-  match p with PAssert AOk | PAssertId AOk | PAssertNoType | PAssertWrongType | PXAssert _ => true | _ => false end.
+  match p with
+  | PAssert AOk | PAssertId AOk | PAssertNoType | PAssertWrongType | PXAssert _ => true
+  | PXSub _ => true   (* issued and signed by X: it is X that may be authenticated by it, never its subject Y *)
+  | _ => false
+  end.
 (* [presents_right_secret]: the exact secret of X next to the exact id of X; a white-space-only or
    near-miss secret is not it, nor is X's secret next to a near miss of X's id *)
 (* the request names X: a near miss of X's id names nobody *)
@@ -118,7 +122,7 @@ Definition refusal_shape (ep : endpoint) (s : stclass) (e : ecode) (tok act : bo
 (* the request carries the id of a second client Y, registered with that method *)
 Definition victim_of (p : pres) : option victim :=
   match p with
-  | PXBasic v | PXAssert v | PXPost v | PXPostId v | PXDup v => Some v
+  | PXBasic v | PXAssert v | PXPost v | PXPostId v | PXDup v | PXSub v => Some v
   | _ => None
   end.
 (* ... in the slot that names the client (Basic before form; of two client_id values the last) *)
